@@ -231,7 +231,12 @@ func c05Overlap(t *testing.T, run *Run, idx int, rng *rand.Rand) {
 		}
 	})
 	w.At(T+300*time.Millisecond, func() { moveRec = w.Deploy("A", []string{"a1:80"}, so(Y), DefTO, 5*time.Second, time.Second) })
-	w.At(T+600*time.Millisecond, func() { claimRec = w.Deploy("B", []string{"b0:80"}, so(X), DefTO, 5*time.Second, time.Second) })
+	claim := rng.IntN(3) != 0 // otherwise nobody takes X after A has left it
+	if claim {
+		w.At(T+600*time.Millisecond, func() { claimRec = w.Deploy("B", []string{"b0:80"}, so(X), DefTO, 5*time.Second, time.Second) })
+	} else {
+		claimRec = &CmdRec{Name: "not-issued", Done: true}
+	}
 	w.Wait()
 	if slowRec == nil || moveRec == nil || claimRec == nil {
 		run.Inconclusive("commands did not complete")
@@ -264,6 +269,26 @@ func c05Overlap(t *testing.T, run *Run, idx int, rng *rand.Rand) {
 		return fmt.Sprintf("status %d", r.Status)
 	}
 	ox, oy := owner(X), owner(Y)
+	if slowKind == "rollout-deploy" && slowRec.Err != "" {
+		fail("rollout-deploy-refused", "rollout deploy of A (healthy targets; it claims no host) failed while A moved from %s to %s: %s", X, Y, slowRec.Err)
+		return
+	}
+	if !claim {
+		// A moved to Y and that was acknowledged. The slow command was issued with the old host list:
+		// a rollout deploy has no host list, so A stays on Y and X is nobody's; a deploy with the
+		// old list that returns ok moves A back (then X is A's and Y nobody's) - both sets are fine,
+		// each pair has one owner and routing agrees with the last acknowledged bindings
+		wantX, wantY := "status 404", "a"
+		if slowKind == "deploy-same-hosts" && slowRec.Err == "" {
+			wantX, wantY = "a", "status 404"
+		}
+		if !strings.HasPrefix(ox, wantX) || !strings.HasPrefix(oy, wantY) {
+			fail("bindings-of-an-earlier-copy", "A moved from %s to %s (acknowledged at %v); the overlapping %s returned at %v (err=%q); now %s is answered by %q and %s by %q", X, Y, moveRec.Ret, slowKind, slowRec.Ret, slowRec.Err, X, ox, Y, oy)
+			return
+		}
+		run.Class(fmt.Sprintf("overlap-no-claim|%s|pfx%d|slow-err=%v", slowKind, len(pfx), slowRec.Err != ""))
+		return
+	}
 	if ox != "b0:80" {
 		fail("two-owners:routing", "after A moved to %s and B was told it owns %s (a %s of A overlapping both has returned: err=%q), requests for %s are answered by %q", Y, X, slowKind, slowRec.Err, X, ox)
 		return
